@@ -224,15 +224,20 @@ def _ws2dwcvp(y, w, p, llas, robust):
             gamma = w_temp / (w_temp + s * ((-1 * d_eigs) ** 2))
             r_arr = y - y_temp
 
-            mad = np.median(
-                np.abs(r_arr[r_weights != 0] - np.median(r_arr[r_weights != 0]))
-            )
-            u_arr = r_arr / (1.4826 * mad * np.sqrt(1 - gamma.sum() / n))
+            # same robust step as in ws2dwcvp: scale from the cells that still carry weight,
+            # no reweighting on a numerically exact fit or when fewer than two cells would remain
+            valid = w_temp != 0
+            mad = np.median(np.abs(r_arr[valid] - np.median(r_arr[valid])))
+            if mad > 1e-9 * max(1.0, np.max(np.abs(y))):
+                u_arr = r_arr / (1.4826 * mad * np.sqrt(1 - gamma.sum() / n))
 
-            r_weights = (1 - (u_arr / 4.685) ** 2) ** 2
-            r_weights[(np.abs(u_arr / 4.685) > 1)] = 0
+                new_weights = (1 - (u_arr / 4.685) ** 2) ** 2
+                new_weights[(np.abs(u_arr / 4.685) > 1)] = 0
 
-            r_weights[r_arr > 0] = 1
+                new_weights[r_arr > 0] = 1
+
+                if np.count_nonzero(w * new_weights) >= 2:
+                    r_weights = new_weights
 
         robust_weights = w * r_weights
 
